@@ -104,8 +104,8 @@ fn varint_edge_start() -> BoxedStrategy<u32> {
         4 => Just(0u32),
         2 => 90u32..127,
         2 => 16_330u32..16_383,
-        1 => 2_097_100u32..2_097_151,
-        1 => 268_435_400u32..268_435_455,
+        2 => 2_097_100u32..2_097_151,
+        2 => 268_435_400u32..268_435_455,
     ]
     .boxed()
 }
@@ -144,7 +144,17 @@ pub fn cfg_strategy(p: Profile, thorough: bool) -> BoxedStrategy<Cfg> {
         .prop_map(move |(c, o, entity_offset, markers)| Cfg { owners: (o || matches!(p, Profile::Related)) && c.children, entity_offset, markers, ..c })
         .boxed();
     if matches!(p, Profile::Events | Profile::Events3 | Profile::Sessions | Profile::Auth | Profile::Lossy | Profile::Split | Profile::Tracked) {
-        (inner, varint_edge_start()).prop_map(|(c, st)| if c.policy == 0 { Cfg { start_tick: st, ..c } } else { c }).boxed()
+        (inner, varint_edge_start())
+            .prop_map(move |(c, st)| {
+                if c.policy == 0 {
+                    // high start ticks also allow one `ToWrap` step: the counter wraps with events / tracking / loss in flight
+                    let big_jumps = c.big_jumps || (st >= (1 << 16) && c.vis == 0 && matches!(p, Profile::Events3 | Profile::Tracked | Profile::Lossy | Profile::Events));
+                    Cfg { start_tick: st, big_jumps, ..c }
+                } else {
+                    c
+                }
+            })
+            .boxed()
     } else {
         inner
     }
@@ -367,6 +377,7 @@ pub fn step_strategy(cfg: &Cfg, p: Profile) -> BoxedStrategy<Step> {
         prop_oneof![3 => 2u8..12, 2 => 60u8..70, 1 => 70u8..200].prop_map(|by| Step::TickJump { by }).boxed(),
     ));
     v.push((w(wrap, 2), any::<u8>().prop_map(|fine| Step::BigJump { fine }).boxed()));
+    v.push((w(cfg.big_jumps && cfg.start_tick >= (1 << 16), if wrap { 2 } else { 5 }), (3u8..10).prop_map(|before| Step::ToWrap { before }).boxed()));
     v.push((w(cfg.refs, if cfg.prespawn { 8 } else { 3 }), (0..slots, 0..slots).prop_map(|(slot, target)| Step::SetRef { slot, target }).boxed()));
     v.push((w(cfg.refs, 1), (0..slots).prop_map(|slot| Step::DelRef { slot }).boxed()));
     v.push((w(cfg.children, 4), (0..slots, 0..slots).prop_map(|(slot, parent)| Step::SetParent { slot, parent }).boxed()));
